@@ -4,7 +4,7 @@
    any prefix of its file-system steps (a kill between the truncating open and the data is a
    torn file).  No bound on the length, the repeats, the order or the number of kills. *)
 From Coq Require Import Arith List Bool.
-From B2Z Require Import Protocol.IcfProtocol.
+From B2Z Require Import Protocol.IcfProtocol Base.Eff Protocol.IcfEffects Protocol.VczEffects Gen.GenIcfProtocol Bridge.BridgeIcfProtocol.
 Import ListNotations.
 
 Theorem never_falsely_complete : forall (nparts : nat) (nfiles : nat -> nat) h,
@@ -52,3 +52,29 @@ Theorem icf_finalise_window_refuted :
   st_F6 PFinalMeta = Full /\ st_F6 PHeader = Full /\ st_F6 (PData 1 0) = Torn.
 Proof. exact icf_finalise_window_refuted. Qed.
 Print Assumptions icf_finalise_window_refuted.
+
+(* TIE TO THE SOURCE.  Gen.GenProtocol.icf_init / icf_partition / icf_finalise are the effect
+   sequences translator/proto2coq.py regenerates from IntermediateColumnarFormatWriter.init /
+   explode_partition / finalise on every run (guards, writes, unlinks, data phase, rmtree, in program
+   order, paths resolved to symbols).  In EVERY state of the abstract file system, for every
+   partition number, write order and removal order, what they denote is exactly the step list of the
+   model the theorems above are about: a reordered write, a dropped unlink, a guard that moved behind
+   a mutation or a new effect in the source breaks this theorem. *)
+Theorem source_effects_are_model_steps : forall (nparts j : nat) (order : list nat) (rm : list path) s,
+  IcfEffects.denote nparts j order rm icf_init s = Some (steps nparts true s Init) /\
+  IcfEffects.denote nparts j order rm icf_partition s = Some (steps nparts true s (Partition j order)) /\
+  IcfEffects.denote nparts j order rm icf_finalise s = Some (steps nparts true s (Finalise rm)).
+Proof.
+  intros nparts j order rm s.
+  exact (conj (icf_init_denotes nparts j order rm s)
+        (conj (icf_partition_denotes nparts j order rm s) (icf_finalise_denotes nparts j order rm s))).
+Qed.
+Print Assumptions source_effects_are_model_steps.
+
+(* init writes the plan (wip/metadata.json) last; a partition writes its summary last; finalise
+   writes the completion marker before it removes anything *)
+Theorem commit_records_written_last :
+  last_mutation icf_init = Some (WriteFile IWipMeta) /\ last_mutation icf_partition = Some (WriteFile ISummaryCur) /\
+  filter eff_is_mutation icf_finalise = [WriteFile IFinalMeta; Rmtree IWip].
+Proof. repeat split; reflexivity. Qed.
+Print Assumptions commit_records_written_last.
